@@ -112,10 +112,10 @@ func init() {
 	hx.Register(&hx.Prop{
 		ID:          "C14",
 		Workers:     func(string) int { return 16 },
-		BudgetQuick: 120 * time.Second,
+		BudgetQuick: 300 * time.Second,
 		BudgetThor:  20 * time.Minute,
 		Kind:        "schedules",
-		Rule: "4 stop-tag variants (engine level, and through the pool's wrappers with two requests on one pool) x 1..4 rules x 3 salience patterns x every position of the tag-setting rule (or none) x every failing subset of size <=2 (incl. the setter itself) x policy; plus rule sets of 13 and 16 rules with saliences tied in pairs and names given in scattered order (beyond the size up to which library sorts are stable by accident), default schedule; sorted variants: one deterministic execution; mix variant: every schedule with <=2 (thorough 3) preemptions; " +
+		Rule: "4 stop-tag variants (engine level, and through the pool's wrappers with two requests on one pool) x 1..4 rules x 3 salience patterns x every position of the tag-setting rule (or none) x every failing subset of size <=2 (incl. the setter itself) x policy; plus rule sets of 13 and 16 rules with saliences tied in pairs and names given in scattered order (beyond the size up to which library sorts are stable by accident), default schedule; sorted variants: one deterministic execution; mix variant: every schedule with <=2 (thorough: 3 for up to three rules) preemptions; " +
 			"oracle = staged reference plan with tag semantics; when no rule sets the tag: differential against the tag-free twin model on the same input (error nil-ness, result keys, event log)",
 		Assume: []string{"injected observer functions terminate"},
 		Run: func(c *hx.Ctx) {
@@ -136,6 +136,9 @@ func init() {
 				b := 0
 				if conc[i] {
 					b = bound
+					if c.Thorough() && len(cfg.Rules) >= 4 {
+						b = 2 // four rules: bound 3 does not finish in the budget
+					}
 				}
 				hx.Explore("C14", modelScenario(cfg), hx.ExploreCfg{Bound: b, Prune: true, Deadline: c.Deadline, DefaultOnly: cfg.Large}, c.Res)
 			}
